@@ -64,8 +64,8 @@ M = [
   "        if !self.open_tags.iter().any(|t| matches!(t.1, Known(_))) || (self.open_tags.len() >= 3 && matches!(self.open_tags.last(), Some(t) if !matches!(t.1, Known(_)))) {\n            self.private_flush()\n        } else {\n            Ok(())\n        }\n    }\n\n    ///\n    /// Write a tag with an unknown size",
   ["C10", "C01"], "the writer also flushes when at least three masters are open and the innermost is unknown-size, even inside a known-size one"),
  ("m13_full_children_inherit_width", "src/tag_writer.rs",
-  "                        let result = children.iter().try_for_each(|child| self.write(child)).and_then(|_| self.end_tag(tag_id));",
-  "                        let result = children.iter().try_for_each(|child| self.write_explicit_sized::<TSpec, SIZE_LENGTH>(child, child.get_id(), TSpec::get_tag_data_type(child.get_id()))).and_then(|_| self.end_tag(tag_id));",
+  "                            self.write(child)\n                        }).and_then(|_| self.end_tag(tag_id));",
+  "                            self.write_explicit_sized::<TSpec, SIZE_LENGTH>(child, child.get_id(), TSpec::get_tag_data_type(child.get_id()))\n                        }).and_then(|_| self.end_tag(tag_id));",
   ["C09"], "children of a Full master inherit its explicit size width (and skip validation)"),
  ("m14_async_drops_byte_of_full_reads", "src/nonblocking.rs",
   "                            self.iterator.get_mut().get_mut().extend_from_slice(&self.buffer[..len]);",
@@ -83,10 +83,6 @@ M = [
   "                self.buffering_progress = Some((position, nested_depth));\n                return false;",
   "                self.buffering_progress = Some((position, 0));\n                return false;",
   ["C04"], "when buffering is interrupted by a temporary end of the source, the same-id nesting depth reached so far is forgotten"),
- ("m17_writer_accepts_any_end", "src/tag_writer.rs",
-  "                if open_tag.0 == id {",
-  "                if open_tag.0 == id || open_tag.0 & 0xff == id & 0xff {",
-  ["C19"], "an End whose id only shares the last byte with the open master closes it"),
  ("m18_paused_none_closes_known", "src/tag_iterator.rs",
   "        } else if self.emit_master_end_when_eof {",
   "        } else if self.emit_master_end_when_eof || self.tag_stack.len() > 3 {",
